@@ -247,6 +247,25 @@ MODELLED = {
         0: "enc_le_prefix", 1: "enc_chan_code", 2: "enc_unit_scale", 4: "enc_text_codec"},
     ("proto/parserecv.py", "ParseRecv._stream_data_encode"): {2: "enc_flags_fmt"},
     ("proto/parserecv.py", "ParseRecv.frame_stream_encode"): {},
+    ("comm.py", "CommHandler._read_hdr"): {},
+    ("comm.py", "CommHandler._read_frame"): {},
+    ("comm.py", "CommHandler._recv_thread"): {},
+    ("comm.py", "CommHandler._nxslib_channels_enable"): {},
+    ("comm.py", "CommHandler._nxslib_channels_div"): {},
+    ("comm.py", "CommHandler._channel_enable"): {},
+    ("comm.py", "CommHandler._channel_div"): {},
+    ("comm.py", "CommHandler._get_ack"): {},
+    ("comm.py", "CommHandler.channels_write"): {},
+    ("comm.py", "CommHandler.ch_enable"): {},
+    ("comm.py", "CommHandler.ch_disable"): {},
+    ("comm.py", "CommHandler.ch_divider"): {},
+    ("comm.py", "CommHandler.ch_enable_all"): {},
+    ("comm.py", "CommHandler.ch_disable_all"): {},
+    ("comm.py", "CommHandler.ch_is_enabled"): {},
+    ("comm.py", "CommHandler.ch_div_get"): {},
+    ("comm.py", "CommHandler.channels_default_cfg"): {},
+    ("comm.py", "CommHandler._ch_divider_default"): {},
+    ("comm.py", "CommHandler._channels_init"): {},
     ("intf/iintf.py", "CommInterfaceCommon.data_align"): {0: "align_pad_byte"},
     ("intf/iintf.py", "CommInterfaceCommon.write"): {},
     ("intf/iintf.py", "CommInterfaceCommon.read"): {},
@@ -261,6 +280,11 @@ MODELLED = {
 DEPENDS = {
     "C01": ["SerialFrame."],
     "C02": ["SerialFrame.", "ParseRecv.recv_handle", "ParseRecv._recv_cb"],
+    "C03": ["CommHandler._read_hdr", "CommHandler._read_frame", "CommHandler._recv_thread", "SerialFrame."],
+    "C07": ["CommHandler._nxslib_channels", "CommHandler._channel_", "CommHandler._get_ack", "CommHandler.channels_",
+            "CommHandler.ch_", "CommHandler._ch_divider_default", "CommHandler._channels_init"],
+    "C11": ["CommHandler._nxslib_channels", "CommHandler._channel_", "CommHandler._get_ack", "CommHandler.channels_write",
+            "Parser.frame_ack_decode"],
     "C04": ["Parser.frame_stream_decode", "Parser._stream_data_get", "msfmt_get", "dsfmt_get"],
     "C15": ["ParseRecv._stream", "ParseRecv.frame_stream_encode", "Parser.frame_stream_decode", "Parser._stream_data_get",
             "msfmt_get", "dsfmt_get", "SerialFrame."],
